@@ -1,5 +1,10 @@
 pub mod common;
 pub mod c01;
+pub mod c02;
+pub mod c03;
+pub mod c08;
+pub mod c12;
+pub mod flowkit;
 pub mod c10;
 
 use crate::Ctx;
@@ -9,6 +14,10 @@ pub fn run(prop: &str, ctx: &mut Ctx, replay: Option<&Value>) {
     match prop {
         "C01" => c01::run(ctx, replay),
         "C10" => c10::run(ctx, replay),
+        "C02" => c02::run(ctx, replay),
+        "C03" => c03::run(ctx, replay),
+        "C08" => c08::run(ctx, replay),
+        "C12" => c12::run(ctx, replay),
         other => {
             eprintln!("no harness run for property {}", other);
             std::process::exit(2);
